@@ -22,8 +22,9 @@ import (
 )
 
 type pullModelSpec struct {
-	name   string // registry.sim/lib/mN:tag
-	key    string // lib/mN:tag (registry side)
+	prev   *pullModelSpec // the version of the tag published before this one
+	name   string         // registry.sim/lib/mN:tag
+	key    string         // lib/mN:tag (registry side)
 	layers [][]byte
 	config []byte
 	man    Manifest
@@ -87,7 +88,16 @@ func (w *storeWorld) manifestFile(name string) string {
 }
 
 // checkPulled: the statement's first sentence, evaluated when a pull reported success.
-func (w *storeWorld) checkPulled(spec *pullModelSpec, what string) {
+// prunedByPeer: the run has concurrent pulls and the digest belonged to a
+// version of a tag that has since been replaced at the registry (the pull that
+// updates the tag prunes the layers of the manifest it replaces).
+func (w *storeWorld) prunedByPeer(digest string) bool {
+	return w.concurrentPulls && w.staleDigests[digest]
+}
+
+func (w *storeWorld) checkPulled(spec *pullModelSpec, what string) { w.checkPulledBy(nil, spec, what) }
+
+func (w *storeWorld) checkPulledBy(att *pullAttempt, spec *pullModelSpec, what string) {
 	raw, err := os.ReadFile(w.manifestFile(spec.name))
 	if err != nil {
 		w.violate("C03", "store-audit", "pull-success:manifest-missing", "%s of %s reported success but the name does not resolve: %v", what, spec.name, err)
@@ -116,6 +126,9 @@ func (w *storeWorld) checkPulled(spec *pullModelSpec, what string) {
 		p := filepath.Join(w.dir, "blobs", strings.Replace(l.Digest, ":", "-", 1))
 		sum, n, err := fileSHA(p)
 		switch {
+		case err != nil && w.prunedByPeer(l.Digest):
+			w.violate("C03", "store-audit", "pull-success:layer-missing:pruned-by-concurrent-pull-of-updated-tag", "%s of %s reported success but layer %s is not in the store: a concurrent pull that updated another tag pruned it as unused (it belonged to the manifest that pull replaced) after this pull had found it present and before this pull wrote its manifest: %v", what, spec.name, shortDigest(l.Digest), err)
+			return
 		case err != nil:
 			w.violate("C03", "store-audit", "pull-success:layer-missing", "%s of %s reported success but layer %s is not in the store: %v", what, spec.name, shortDigest(l.Digest), err)
 			return
@@ -134,12 +147,24 @@ func (w *storeWorld) checkResolvable(when string) {
 	snap := w.snapshot()
 	anyTampered := len(w.reg.tampered) > 0
 	for _, p := range snap.audit(!anyTampered) {
+		if p.kind == "layer-missing" && w.prunedByPeer(p.digest) {
+			w.violate("C03", "store-audit", "resolvable:layer-missing:pruned-by-concurrent-pull-of-updated-tag", "%s: %s (a concurrent pull that updated another tag pruned the layer as unused while the pull of this model was in flight)", when, p.detail)
+			return
+		}
 		w.violate("C03", "store-audit", "resolvable:"+p.kind, "%s: %s", when, p.detail)
 		return
 	}
 }
 
 func (w *storeWorld) checkGinPanics(prop string) {
+	if prop != "C03" && prop != "C10" {
+		// a recovered panic is an error response; only C03 and C10 speak about panics
+		if w.ginErr.Len() > 0 {
+			verifsim.Probe("gin_recovered_panic_not_counted")
+			w.ginErr.Reset()
+		}
+		return
+	}
 	if w.ginErr.Len() > 0 && !verifsim.IsCrashed() {
 		msg := w.ginErr.String()
 		fn := verifsim.StackRepoFunc(msg)
@@ -176,6 +201,7 @@ func firstN(s string, n int) string {
 }
 
 type pullAttempt struct {
+	peers  []*pullAttempt // attempts running in the same phase
 	spec   *pullModelSpec
 	done   bool
 	res    apiResult
@@ -204,7 +230,7 @@ func (w *storeWorld) pullTask(a *pullAttempt, stream bool, what string) {
 	case a.res.ok() && (a.res.lastStatus() == "success"):
 		verifsim.Probe("pull_success")
 		w.note("%s %s -> success", what, a.spec.name)
-		w.checkPulled(a.spec, what)
+		w.checkPulledBy(a, a.spec, what)
 	case a.res.ok() && !cancelled:
 		// a stream that ends without "success" and without an error object
 		verifsim.Probe("pull_no_verdict")
@@ -234,9 +260,23 @@ func runPull(t *testing.T, tape *verifsim.Tape, prop, tier string, keepLog bool)
 		if tier == "thorough" {
 			cfg.phases += d("phases+", 3)
 		}
+		// re-download arm: one model, its tag is updated and rolled back every phase, no
+		// interrupts, and the only faults are flipped bytes and ignored ranges - so that a
+		// digest that was verified, pruned and is downloaded again arrives damaged. Aims at
+		// verification state that outlives the file it was computed for.
+		redownload := d("arm-redownload", 12) == 0
+		if redownload {
+			cfg.nModels, cfg.concurrent, cfg.cancelRate, cfg.updateTag = 1, false, 0, true
+			cfg.phases = 3 + d("phases-rd", 4)
+		}
 		minDownloadPartSize, maxDownloadPartSize = cfg.partSize, cfg.partSize*4
+		w.concurrentPulls = cfg.concurrent
 		w.reg.needAuth = cfg.needAuth
 		w.reg.plan = drawFaultPlan()
+		if redownload {
+			w.reg.plan = &faultPlan{enabled: map[string]bool{fFlip: true, fRangeIgnored: d("rd-range", 2) == 0}, rate: 2 + d("rd-rate", 3), budget: 4 + d("rd-budget", 8)}
+			verifsim.Probe("arm_redownload")
+		}
 		w.note("config: models=%d part=%dB auth=%v phases=%d concurrent=%v cancel=1/%d updatetag=%v net: %s", cfg.nModels, cfg.partSize, cfg.needAuth, cfg.phases, cfg.concurrent, cfg.cancelRate, cfg.updateTag, w.reg.plan)
 
 		// publish models; layers may be shared between models
@@ -268,9 +308,24 @@ func runPull(t *testing.T, tape *verifsim.Tape, prop, tier string, keepLog bool)
 
 		stepBudget := 150000
 		for ph := 0; ph < cfg.phases; ph++ {
-			if cfg.updateTag && ph > 0 && d("update-now", 2) == 0 {
+			if cfg.updateTag && ph > 0 && (redownload || d("update-now", 2) == 0) {
 				i := d("update-which", len(specs))
-				specs[i] = mkModel(i, "latest")
+				old := specs[i]
+				if old.prev != nil && (d("rollback", 3) == 0 || (redownload && ph%2 == 0)) {
+					// the tag is rolled back to the version published before
+					rb := *old.prev
+					rb.prev = old
+					mb, _ := json.Marshal(rb.man)
+					w.reg.manifests[rb.key] = mb
+					specs[i] = &rb
+					verifsim.Probe("tag_rolled_back")
+				} else {
+					specs[i] = mkModel(i, "latest")
+					specs[i].prev = old
+				}
+				for _, l := range append(append([]Layer{}, old.man.Layers...), old.man.Config) {
+					w.staleDigests[l.Digest] = true
+				}
 				w.note("registry: tag %s updated", specs[i].key)
 			}
 			var atts []*pullAttempt
@@ -384,6 +439,14 @@ func runStore(t *testing.T, tape *verifsim.Tape, prop, tier string, keepLog bool
 	switch prop {
 	case "C03":
 		return runPull(t, tape, prop, tier, keepLog)
+	case "C04":
+		return runOps(t, tape, prop, tier, keepLog)
+	case "C12":
+		return runCrash(t, tape, prop, tier, keepLog)
+	case "C09":
+		return runPush(t, tape, prop, tier, keepLog)
+	case "C10":
+		return runGGUFAPI(t, tape, prop, tier, keepLog)
 	}
 	return verifsim.Result{HarnessErr: "store harness does not serve " + prop}
 }
@@ -391,16 +454,34 @@ func runStore(t *testing.T, tape *verifsim.Tape, prop, tier string, keepLog bool
 func TestVerifStore(t *testing.T) {
 	verifQuietLogs()
 	verifsim.WorkerMain(t, verifsim.Harness{
-		Name:       "store",
-		RunOne:     runStore,
-		PanicProps: []string{"C03", "C04", "C12"},
+		Name:   "store",
+		RunOne: runStore,
+		// an unrecovered panic is a violation only where the statement says so (C03: "no registry
+		// response ... crashes the server", C10: "never panics ... the server keeps serving"); the
+		// other properties see a dead goroutine only through their own oracles
+		PanicProps: []string{"C03", "C10"},
 		Real: []string{"server/images.go download.go upload.go auth.go modelpath.go manifest.go layer.go create.go model.go routes.go fixblobs.go (instrumented, unmodified logic)",
 			"gin router and handlers (POST /api/pull etc. through router.ServeHTTP)", "net/http client (redirect handling, bodies) over an in-memory RoundTripper", "real files on tmpfs through the vfs pass-through"},
 		Stub: []string{"registry / CDN / auth servers (simRegistry: protocol state + tape-drawn faults)", "TCP/TLS (no sockets)", "process death = freeze + unwind (no power-loss reordering)"},
 		Rule: map[string]string{
 			"C03": "one evaluation = one simulated execution: 1-3 published models (1-4 layers of 0-200 KB, shared layers, optional tag update), 1-7 phases of 1-2 concurrent POST /api/pull attempts with tape-drawn interrupts, a tape-drawn subset of 17 network fault kinds at a tape-drawn rate, part size 1-64 KB, then up to three fault-free retries per model; non-trivial = at least two tasks runnable at some step and at least one network request; distinct = different hash of the (task,label,time) decision sequence",
+			"C12": "one case = a tape-drawn prior history of 0-5 fault-free API operations (the C04 generator: shared layers, case variants, restarts) followed by one target operation (pull of a new / updated / layer-sharing model in 256 B-4 KB parts, create from files, create FROM, re-create, copy, delete); the case is executed once uninterrupted to count its crash points (every mutating file-system call of the operation, plus a torn variant of every data write) and then once per crash point (all of them up to 150 quick / 600 thorough, otherwise a stratified tape-drawn sample): freeze the world there, unwind, restart through the repository's own start-up sequence, audit, repeat the operation, restart again, compare with the uninterrupted run; one evaluation = one such execution; non-trivial = the case has at least one crash point; distinct = different hash of the decision sequence (every crash point yields a different one)",
+			"C09": "legacy push stage: one evaluation = one simulated execution of 1-3 phases of 1-2 concurrent POST /api/push requests for 1-3 locally created models (shared layers, upload part size 64 B-16 KB so that blobs are uploaded in several PATCH/direct-PUT parts) against the simulated registry with tape-drawn upload faults (rejected parts, lost upload location, rejected commit, rejected manifest PUT, 5xx/429/connection errors, auth) and client interrupts; the simulated registry checks at every manifest PUT that every named layer has been committed with matching content",
+			"C10": "API stage: one evaluation = one simulated execution in which 1-4 fault-derivatives of a valid GGUF file (truncation at a tape-drawn offset, flipped byte, 32/64-bit fields overwritten with boundary values, header counts overwritten) are uploaded with POST /api/blobs and used by POST /api/create, or written over the stored model file of a healthy model before POST /api/show, GET /api/tags and POST /api/create FROM; every request must be answered, no goroutine may panic (create decodes outside gin's recovery), and afterwards the server still lists models and creates a healthy one",
+			"C04": "one evaluation = one simulated execution of a tape-drawn history of 5-80 API operations (blob upload, create from files, create FROM, copy, delete, pull from a fault-free simulated registry, restart with start-up prune) over a pool of 60 names that includes case variants, several tags, hosts and namespaces, with layers shared through identical content, FROM and copy; the statement is evaluated after every operation through GET /api/tags, POST /api/show and a digest/size walk of the store; non-trivial = at least two operations succeeded and two models coexisted; distinct = different hash of the decision sequence",
 		},
-		NonTrivial: func(prop string, r *verifsim.Result) bool { return r.MaxRunnable >= 2 && r.Info["net_requests"] > 0 },
+		NonTrivial: func(prop string, r *verifsim.Result) bool {
+			if prop == "C04" {
+				return r.Info["op_ok"] >= 2 && r.Probes["two_models_coexist"] > 0
+			}
+			if prop == "C10" {
+				return r.Probes["keeps_serving"] > 0
+			}
+			if prop == "C12" {
+				return r.Info["enum_points_run"] > 0
+			}
+			return r.MaxRunnable >= 2 && r.Info["net_requests"] > 0
+		},
 		Assumptions: []string{"instrumentation preserves single-threaded semantics", "testing/synctest fake clock and quiescence detection",
 			"the simulated registry follows the distribution protocol as the legacy client uses it (manifest GET, blob HEAD, 307 to a CDN, ranged GET, token auth)",
 			"a manifest body damaged in transit is indistinguishable from a different published manifest for the legacy protocol; for such runs only digest-level checks are made"},
